@@ -30,6 +30,12 @@ def main():
             repo = os.path.join(scratch, "repo")
             shutil.copytree("/repo", repo, ignore=shutil.ignore_patterns(".git", "__pycache__", "*.pyc"))
             subprocess.check_call(["git", "init", "-q"], cwd=repo)
+            rebased = os.path.join(d, "patch.rebased.diff")
+            if subprocess.call(["git", "apply", "--check", patch], cwd=repo, stderr=subprocess.DEVNULL) != 0 \
+                    and os.path.exists(rebased):
+                # /repo moved on under the seeded hunk (a later fix: commit): the same change re-made by hand
+                print("seedtest: patch.diff no longer applies to /repo, using patch.rebased.diff")
+                patch = rebased
             subprocess.check_call(["git", "apply", patch], cwd=repo)
             env["VERIF_REPO"] = repo
         p = subprocess.run([os.path.join(VERIF, "check"), pid, tier], env=env, stdout=subprocess.PIPE,
